@@ -58,10 +58,12 @@ def main():
             for i, a_ in enumerate(args):
                 if a_ == "--base":
                     base = args[i + 1]
-            if base:
-                sh(["git", "-C", wt, "checkout", "-q", "--detach", base])
-                out["base"] = base
+            for b in ((base.split(",") if base else []) + ["b83760a", "0e8f22c"]):
+                sh(["git", "-C", wt, "checkout", "-q", "--detach", b])
+                out["base"] = b
                 rc, o = sh(["git", "-C", wt, "apply", os.path.join(seed_dir, "patch.diff")])
+                if rc == 0:
+                    break
         out["patch_applies"] = rc == 0
         if rc:
             out["apply_error"] = o[-400:]
